@@ -495,3 +495,180 @@ def run(ctx) -> None:  # noqa: F811
     n = sum(xypair.check_function(ctx, "R-XYPAIR", f) for f in fs)
     ctx.require(n >= 2, f"R-XYPAIR judged only {n} axis-tagged stores in abtem/tilt.py")
     _inner_run_c39b(ctx)
+
+
+# ---- added after the mutation sweep: the kernel is a *product*, and the base tilt is applied when it is non-zero
+_inner_run_c39c = run
+
+
+def _tilt_product_rule(ctx) -> None:
+    import ast as _ast
+
+    from ..model import last_attr as _last
+    from ..rules.symx import EnvNorm, SymExec
+    from ..terms import Poly as _Poly
+
+    tf = ctx.repo.function(MS, TILT_FN)
+    ctx.require("array" in tf.params, f"{tf.qualname}: parameter `array` (the untilted propagator) not found")
+    factors: dict[str, str] = {}
+
+    def hook(nz, call):
+        s = _last(call)
+        if s == "complex_exponential" and len(call.args) == 1:
+            k = nz.norm(call.args[0]).key()
+            name = factors.setdefault(k, f"⟦ramp{len(factors)}⟧")
+            return _Poly.atom(name)
+        if s == "cast" and len(call.args) == 2:
+            return nz.norm(call.args[1])
+        return None
+
+    class _ShapeFree(EnvNorm):
+        """selection / reshaping of a batch element commutes with the element-wise product"""
+
+        def norm(self, n):
+            if isinstance(n, _ast.Subscript):
+                items = _slice_items(n.slice)
+                if all(_is_none(e) or _is_full(e) or _is_ellipsis(e) or (
+                        isinstance(e, _ast.Constant) and isinstance(e.value, int)) for e in items):
+                    base = self.norm(n.value)
+                    if any(a.startswith("⟦ramp") or a == "array" for a in base.atoms()):
+                        return base
+            return super().norm(n)
+
+    class _Exec(SymExec):
+        def normalizer(self, env):
+            return _ShapeFree(env, self.trig, self.call_hook)
+
+    sx = _Exec(tf.node, call_hook=hook)
+    results = sx.run()
+    ctx.require(bool(results) and not sx.fallthrough, f"{tf.qualname}: a path ends without returning the kernel")
+    ctx.require(bool(factors), f"{tf.qualname}: no complex_exponential(...) phase factor recognised")
+    seen = set()
+    for r in results:
+        ctx.require(r.value is not None, f"{tf.qualname}: return without value")
+        v = r.value
+        key = v.key()
+        if key in seen:
+            continue
+        seen.add(key)
+        problems = []
+        if not v.is_monomial():
+            problems.append("the returned kernel is a sum, not a product of the propagator and the tilt phase factors")
+        else:
+            (mono, coef), = v.terms.items()
+            exps = dict(mono)
+            ramps = {a: e for a, e in exps.items() if a.startswith("⟦ramp")}
+            other = [a for a in exps if a not in ramps and a != "array"]
+            if other:
+                raise AnalysisError(f"{tf.qualname}: unrecognised factor(s) {other[:3]} in the returned kernel")
+            if coef != 1:
+                problems.append(f"the product carries the constant factor {coef}")
+            if exps.get("array") != 1:
+                problems.append(f"the untilted propagator enters with exponent {exps.get('array', 0)} instead of 1 "
+                                "(dividing by it inverts the propagation)")
+            if not ramps:
+                problems.append("no tilt phase factor multiplies the propagator")
+            bad = sorted(a for a, e in ramps.items() if e != 1)
+            if bad:
+                problems.append(f"{len(bad)} tilt phase factor(s) enter with an exponent other than +1 (a divided "
+                                "unit-modulus ramp is its conjugate: the shift along that axis is reversed)")
+        ctx.check(not problems, "R-TILTPRODUCT", f"{tf.qualname}:returned kernel", tf.loc(r.stmt),
+                  "kernel = propagator × every tilt phase factor, each once",
+                  "; ".join(problems), key_detail="product")
+
+
+def _nonzero_truth(t, mentions) -> "bool | None":
+    """Truth value of test `t` when the base tilt is non-zero (None: not decidable)."""
+    import ast as _ast
+
+    if isinstance(t, _ast.UnaryOp) and isinstance(t.op, _ast.Not):
+        r = _nonzero_truth(t.operand, mentions)
+        return None if r is None else not r
+    if isinstance(t, _ast.Compare) and len(t.ops) == 1 and isinstance(t.ops[0], (_ast.Eq, _ast.NotEq)):
+        a, b = t.left, t.comparators[0]
+        for x, y in ((a, b), (b, a)):
+            if mentions(x) and _is_zero_literal(y):
+                return isinstance(t.ops[0], _ast.NotEq)
+        return None
+    if isinstance(t, _ast.Call) and last_attr(t) == "any" and len(t.args) == 1 and mentions(t.args[0]):
+        inner = t.args[0]
+        if isinstance(inner, (_ast.GeneratorExp, _ast.ListComp)):
+            return _nonzero_truth(inner.elt, lambda e: True)
+        return True
+    if isinstance(t, _ast.BoolOp) and isinstance(t.op, _ast.And):
+        rs = [_nonzero_truth(v, mentions) for v in t.values if mentions(v)]
+        return rs[0] if len(rs) == 1 else None
+    return None
+
+
+def _is_zero_literal(e) -> bool:
+    import ast as _ast
+
+    if isinstance(e, _ast.Constant):
+        return isinstance(e.value, (int, float)) and not isinstance(e.value, bool) and e.value == 0
+    if isinstance(e, (_ast.Tuple, _ast.List)):
+        return bool(e.elts) and all(_is_zero_literal(x) for x in e.elts)
+    return False
+
+
+def _base_tilt_polarity_rule(ctx) -> None:
+    import ast as _ast
+
+    from ..model import call_name as _cn
+
+    f = ctx.repo.method(MS, "FresnelPropagator", "_calculate_array")
+    wparam = f.positional_params[0]
+    df = DataFlow(f.node)
+
+    def is_apply(s):
+        return any(isinstance(c, _ast.Call) and _cn(c) == TILT_FN for c in _ast.walk(s))
+
+    n = 0
+    for st in walk_no_nested(f.node):
+        if not isinstance(st, _ast.If):
+            continue
+        at = df.cfg.node_of(st).idx
+
+        def mentions(e, at=at):
+            for x in _ast.walk(e):
+                if isinstance(x, _ast.Attribute) and x.attr == "base_tilt" and dotted(x.value) == wparam:
+                    return True
+                if isinstance(x, _ast.Name):
+                    d = df.single_def(at, x.id)
+                    if d is not None and d.kind == "assign" and d.value is not None and any(
+                            isinstance(y, _ast.Attribute) and y.attr == "base_tilt" and dotted(y.value) == wparam
+                            for y in _ast.walk(d.value)):
+                        return True
+            return False
+
+        if not mentions(st.test):
+            continue
+        in_body = any(is_apply(s) for s in st.body)
+        in_else = any(is_apply(s) for s in st.orelse)
+        if not (in_body or in_else):
+            continue
+        n += 1
+        truth = _nonzero_truth(st.test, mentions)
+        ctx.require(truth is not None and in_body != in_else,
+                    f"{f.qualname}: the base-tilt test `{norm_text(st.test)[:60]}` is not of a recognised form")
+        ctx.check(truth == in_body, "R-BASETILT-NONZERO", f"{f.qualname}:base-tilt arm", f.loc(st),
+                  "the tilt kernel is applied on the arm taken when the base tilt is non-zero",
+                  f"`{norm_text(st.test)[:60]}` sends a non-zero base tilt to the arm that does not apply "
+                  f"{TILT_FN}: the scalar beam tilt is ignored (and a zero tilt is 'applied')", key_detail="polarity")
+    if n == 0:
+        # R-BASETILT-ALWAYS (below) reports the missing application as a violation
+        ctx.info("R-BASETILT-NONZERO", f"{f.qualname}:base-tilt arm", f.where, "no conditional application of the base tilt")
+
+
+def run(ctx) -> None:  # noqa: F811
+    ctx.rule("R-TILTPRODUCT", "symbolic execution of _apply_tilt_to_fresnel_propagator_array: on every path the returned "
+             "kernel is the incoming propagator times each tilt phase factor e^(i·ramp), every factor with exponent "
+             "+1 (batch selection / reshaping commute with the product).  Tilted propagation = untilted propagation "
+             "followed by the shift only if the ramps *multiply* the propagator: a divided ramp is its conjugate "
+             "(shift reversed along that axis) and a divided propagator propagates backwards")
+    ctx.rule("R-BASETILT-NONZERO", "in FresnelPropagator._calculate_array the arm of the base-tilt test that applies the "
+             "tilt kernel is the arm taken when waves.base_tilt differs from zero (test evaluated for a non-zero "
+             "tilt: `!= 0` true, `== 0` false, `not`, `any(...)`): otherwise every non-zero scalar tilt is dropped")
+    _tilt_product_rule(ctx)
+    _base_tilt_polarity_rule(ctx)
+    _inner_run_c39c(ctx)
